@@ -52,6 +52,8 @@ func sizesOf(s Sx) []int {
 	return r
 }
 
+var bodyRewritten int
+
 func runStream(in Sx) Sx {
 	ver, thr, cidx, keyseed := in.At(1).AsInt(), in.At(2).AsInt(), in.At(3).AsInt(), in.At(4).Uint64()
 	pkts, sizes := in.At(5), sizesOf(in.At(6))
@@ -72,6 +74,9 @@ func runStream(in Sx) Sx {
 		var n int
 		var err error
 		panicked, _ := Catch(func() { n, err = enc.WritePacket(w, rec.AsCryptor(), p) })
+		if bb, ok := p.Body_.([]byte); ok && !bytes.Equal(bb, body) {
+			bodyRewritten++ // in-place encryption changed the caller's body slice (outside the statement)
+		}
 		frame := w.all()
 		wres = append(wres, List(Bool(panicked), Int(int64(n)), Bool(err != nil), writesSx(w.writes),
 			PacketSx(p, List(Int(0))), Uint(uint64(crc32.ChecksumIEEE(frame)))))
@@ -303,6 +308,18 @@ func gen(a Args, out *Out) {
 			}
 			approx += bl + 24
 			ps = append(ps, p)
+			switch t := EffThreshold(ver, thr); {
+			case bl == 0:
+				out.Count("bodylen:0")
+			case bl >= t-1 && bl <= t+2:
+				out.Count("bodylen:threshold+-1")
+			case bl <= 64:
+				out.Count("bodylen:1..64")
+			case bl <= 1024:
+				out.Count("bodylen:65..1024")
+			default:
+				out.Count("bodylen:>1024")
+			}
 		}
 		out.Count("ver:" + string(rune('0'+ver)))
 		out.Count("cipher:" + CipherNames[cidx])
@@ -347,6 +364,9 @@ func gen(a Args, out *Out) {
 	}
 	// 4. volume: the round-trip property itself, evaluated in Go
 	sweep(rng.Fork(), nsweep, a.Thorough(), out)
+	if bodyRewritten > 0 {
+		out.Note("observed hazard outside the statement: WritePacket with a cipher rewrote the caller's []byte body in place in %d of the generated packets (the body is not among the fields the property lists as untouched)", bodyRewritten)
+	}
 }
 
 // the property on the implementation's outputs, without the model: write, read back, compare
@@ -371,7 +391,7 @@ func sweep(rng *Rng, n int, thorough bool, out *Out) {
 		in := List(Int(1), Int(int64(ver)), Int(int64(thr)), Int(int64(cidx)), Uint(keyseed), List(psx), ListOf(nil))
 		out.GoChecked++
 		if what := holds(ver, thr, cidx, keyseed, psx); what != "" {
-			out.Violation("C01/sweep/"+what, "round-trip sweep: "+what, in)
+			out.Violation("C01/sweep/"+what, "round-trip sweep: "+what, List(in, ListOf(nil)))
 		}
 	}
 }
